@@ -43,6 +43,7 @@ func Exec(c *vlib.HistCase) (nontrivial bool, labels []string, fail *vlib.Failur
 	defer h.DS.Stop()
 	lab := map[string]bool{}
 	prevWin := map[string]string{}
+	owed := map[string]bool{}
 	for i, st := range c.Steps {
 		res := h.RunStep(st)
 		if !res.OK {
@@ -81,8 +82,33 @@ func Exec(c *vlib.HistCase) (nontrivial bool, labels []string, fail *vlib.Failur
 		if rec := h.Dev.LastRecord(); rec != nil && h.Dev.Calls() > res.DevCallsBefore && len(rec.Anomalies) > 0 {
 			return nontrivial, keys(lab), vlib.Failf("C08:payload-anomaly", "step %d: %v", i, rec.Anomalies)
 		}
+		// members of a case that newly wins in this step and are held by intents outside the transaction: the recorded
+		// finding is that they are not sent. Their absence can stay hidden (a presence container that another owner's child
+		// keeps alive) and surface in a later step; they stay "owed" until their owner is part of a transaction again.
+		{
+			inTx := map[string]bool{}
+			for _, ri := range res.Resolved {
+				inTx[ri.Name] = true
+			}
+			for p := range owed {
+				if ds := h.Model.Definers(p); len(ds) == 0 || inTx[ds[0].Name] {
+					delete(owed, p)
+				}
+			}
+			for p := range h.Model.Expected() {
+				ds := h.Model.Definers(p)
+				if len(ds) == 0 || inTx[ds[0].Name] {
+					continue
+				}
+				for _, cr := range vlib.ChoiceRefs(vlib.MustCanon(p)) {
+					if oldWin[cr.Inst] != cr.Case && win[cr.Inst] == cr.Case {
+						owed[p] = true
+					}
+				}
+			}
+		}
 		if f := vlib.CheckConvergencePfx("C08", h.Model, dev, fmt.Sprintf("step %d (%s) winners=%v", i, describe(res), win)); f != nil {
-			if f.Sig == "C08:A:missing" && newlyWonMemberMissing(h.Model, dev, oldWin, win, res) {
+			if f.Sig == "C08:A:missing" && (newlyWonMemberMissing(h.Model, dev, oldWin, win, res) || onlyOwedMissing(h.Model, dev, owed)) {
 				f.Sig = "C08:A:newly-won-case-member-missing"
 			}
 			if strings.Contains(f.Detail, ": path /chc/ce[") && (strings.HasPrefix(f.Sig, "C08:B:losing-case") || strings.HasPrefix(f.Sig, "C08:A:")) {
@@ -120,6 +146,29 @@ func Exec(c *vlib.HistCase) (nontrivial bool, labels []string, fail *vlib.Failur
 
 // newlyWonMemberMissing: every expected-but-missing path is a member of a case
 // that did not win before this step, defined by an intent outside the transaction.
+// onlyOwedMissing: every expected path the device lacks is a member that was never sent when its case won.
+func onlyOwedMissing(m *vlib.Model, dev vlib.Conf, owed map[string]bool) bool {
+	exp := vlib.NormPresence(m.Expected())
+	nd := vlib.NormPresence(dev)
+	any := false
+	for p, v := range exp {
+		if got, ok := nd[p]; ok {
+			if got != v {
+				return false
+			}
+			continue
+		}
+		if n := vlib.MustCanon(p).Node(); len(m.Definers(p)) == 0 && n != nil && n.Kind == vlib.KContainer {
+			continue
+		}
+		if !owed[p] {
+			return false
+		}
+		any = true
+	}
+	return any
+}
+
 func newlyWonMemberMissing(m *vlib.Model, dev vlib.Conf, oldWin, win map[string]string, res *vlib.StepResult) bool {
 	inTx := map[string]bool{}
 	for _, ri := range res.Resolved {
@@ -136,6 +185,10 @@ func newlyWonMemberMissing(m *vlib.Model, dev vlib.Conf, oldWin, win map[string]
 			return false // wrong value, not a missing member
 		}
 		ds := m.Definers(p)
+		if n := vlib.MustCanon(p).Node(); len(ds) == 0 && n != nil && n.Kind == vlib.KContainer {
+			// a presence container that exists only through its childs: judged by the childs
+			continue
+		}
 		if len(ds) == 0 || inTx[ds[0].Name] {
 			return false
 		}
